@@ -37,6 +37,11 @@ build() {
   for kind in inst plain; do
     mkdir -p "$scratch/$kind"
     cp "$REPO/go.mod" "$scratch/$kind/" || infra "no go.mod in $REPO"
+    if [ "$kind" = plain ]; then
+      # the command-line front end (package main in the repository root): built as is and
+      # run as a subprocess for a sample of the compilations (config loading, flag parsing, file I/O)
+      for f in "$REPO"/*.go; do case "$f" in *_test.go) ;; *) [ -f "$f" ] && cp "$f" "$scratch/plain/";; esac; done
+    fi
     for d in "$REPO"/*/; do
       dn="$(basename "$d")"
       ls "$d"*.go >/dev/null 2>&1 || continue
@@ -62,6 +67,9 @@ EOF
   done
   (cd "$VERIF/sim" && go build -modfile="$scratch/harness.inst.mod" -o "$out/verifsim" ./cmd/verifsim) || infra "simulator does not build against the instrumented working tree"
   (cd "$VERIF/sim" && go build -modfile="$scratch/harness.plain.mod" -o "$out/verifsim-plain" ./cmd/verifsim) || infra "simulator does not build against the plain working tree"
+  if ls "$scratch/plain"/*.go >/dev/null 2>&1; then
+    (cd "$scratch/plain" && go build -o "$out/poryscript-cli" .) || infra "the command-line front end (package main) does not build"
+  fi
   [ "$out" = "$scratch" ] || cp "$scratch/instrument.json" "$out/instrument.json"
 }
 
@@ -71,7 +79,7 @@ case "$mode" in
     exit 0 ;;
   replay)
     build "$scratch"
-    "$scratch/verifsim" replay "$arg"
+    VERIF_CLI="$scratch/poryscript-cli" "$scratch/verifsim" replay "$arg"
     exit $? ;;
   selftest)
     build "$scratch"
@@ -84,7 +92,7 @@ tier="$arg"
 build "$scratch"
 EVD="${VERIF_EVIDENCE_DIR:-$VERIF/evidence}"; RPD="${VERIF_REPLAY_DIR:-$VERIF/replays}"
 mkdir -p "$EVD" "$RPD" "$scratch/work"
-"$scratch/verifsim" run -prop "$prop" -tier "$tier" -seed "$SEED" -workers "$WORKERS" \
+VERIF_CLI="$scratch/poryscript-cli" "$scratch/verifsim" run -prop "$prop" -tier "$tier" -seed "$SEED" -workers "$WORKERS" \
   -evidence "$EVD/$prop.json" -replays "$RPD" -known "$VERIF/known_findings.json" \
   -scratch "$scratch/work" -plain "$scratch/verifsim-plain" -instr-report "$scratch/instrument.json" ${VERIF_COUNT:+-count "$VERIF_COUNT"}
 exit $?
